@@ -8,7 +8,7 @@ Set Warnings "-ambiguous-paths".
 From Coquelicot Require Import Coquelicot.
 From PyLib Require Import PyVal PyBuiltins Ideal.
 From Gen Require Import M_base M_Angle M_Interpolation.
-From Proofs.C12 Require C12_defs C12_main C12_gen C12_gend C12_rootany C12_order C12_set.
+From Proofs.C12 Require C12_defs C12_main C12_gen C12_gend C12_rootany C12_order C12_set C12_poly.
 From Coq Require Import Permutation Sorted.
 From Spec Require Newton.
 From Proofs.C12 Require Import C12_tac C12_nd C12_dup3 C12_ctor3 C12_ctor4 C12_ideal C12_root C12_witness.
@@ -390,6 +390,29 @@ Theorem C12_duplicates_any : forall px py : list R,
   = VErr ValueError.
 Proof. exact C12_set.init_dups. Qed.
 
+(* [ideal] THE HEADLINE CLAUSE, ANY n in 2..64, from the constructor arguments on: ordinates taken from a polynomial p of
+   degree < n (coefficient list of length <= n, Newton.peval), abscissae pairwise at least tol apart and supplied in
+   ANY order: between the nodes (inside the table, at least tol from every node) Interpolation(px, py)(x) = p(x)
+   EXACTLY, and (n >= 3) derivative(x) is the derivative of p.  Exact real arithmetic: nothing is said about the
+   relative 1e-9 of the binary64 code, which is covered by correspondence and search. *)
+Theorem C12_polynomial_any : forall px py p : list R,
+  List.length py = List.length px -> (2 <= List.length px <= 64)%nat -> C12_gen.separated px ->
+  (List.length p <= List.length px)%nat ->
+  (forall j, (j < List.length px)%nat -> C12_gen.nthR py j = Newton.peval p (C12_gen.nthR px j)) ->
+  let obj := Interpolation___init__ Rops (VObj cInterpolation [VNone; VNone; VNone; VNone])
+               (VTuple [C12_gen.flist px; C12_gen.flist py]) in
+  let xs' := C12_order.sx px in let n := List.length px in
+  forall x, C12_gen.nthR xs' 0 <= x -> x <= C12_gen.nthR xs' (n - 1) ->
+  ((forall i, (i < n)%nat -> C12_gen.tol0 <= Rabs (x - C12_gen.nthR xs' i)) ->
+     Interpolation___call__ Rops obj (VFloat x) = VFloat (Newton.peval p x)) /\
+  ((3 <= n)%nat ->
+     exists d, Interpolation_derivative Rops obj (VFloat x) = VFloat d /\ is_derive (Newton.peval p) x d).
+Proof.
+  intros px py p L Hn S Hd Hdata obj xs' n x Hlo Hhi. split.
+  - intro Ha. apply (C12_poly.poly_value px py p L Hn S Hd Hdata x Hlo Hhi Ha).
+  - intro H3. apply (C12_poly.poly_derivative px py p L Hn S Hd Hdata x H3 Hlo Hhi).
+Qed.
+
 (* [ideal, n = 3 only, two-list form only] duplicated abscissae (any pair closer than tol) are refused with ValueError (three points, two-list form) *)
 Theorem C12_duplicates : forall p1 p2 p3 q1 q2 q3,
   Rabs (p1 - p2) < tol0 \/ Rabs (p1 - p3) < tol0 \/ Rabs (p2 - p3) < tol0 ->
@@ -538,6 +561,7 @@ Redirect "C12_constructor_order_independent_any.assumptions" Print Assumptions C
 Redirect "C12_constructor_forms_any.assumptions" Print Assumptions C12_constructor_forms_any.
 Redirect "C12_copy_any.assumptions" Print Assumptions C12_copy_any.
 Redirect "C12_duplicates_any.assumptions" Print Assumptions C12_duplicates_any.
+Redirect "C12_polynomial_any.assumptions" Print Assumptions C12_polynomial_any.
 Redirect "C12_root_step.assumptions" Print Assumptions C12_root_step.
 Redirect "C12_root_sound.assumptions" Print Assumptions C12_root_sound.
 Redirect "C12_root_witness.assumptions" Print Assumptions C12_root_witness.
